@@ -17,6 +17,7 @@ mod mon_c04;
 mod mon_c05;
 mod mon_c07;
 mod mon_c08;
+mod mon_c12;
 mod mon_c09;
 mod mon_c10;
 mod mon_c11;
@@ -124,6 +125,7 @@ fn main() {
         "C01" => mon_c01::run(&ctx, &mut rep),
         "C02" => mon_c02::run(&ctx, &mut rep),
         "C17" => mon_c17::run(&ctx, &mut rep),
+        "C12" => mon_c12::run(&ctx, &mut rep),
         "C09" => mon_c09::run(&ctx, &mut rep),
         "C10" => mon_c10::run(&ctx, &mut rep),
         "C11" => mon_c11::run(&ctx, &mut rep),
